@@ -9,7 +9,7 @@ sys.path.insert(0, os.path.dirname(os.path.dirname(os.path.abspath(__file__))))
 from cxa.index import AnalysisError, Index  # noqa: E402
 from cxa.report import run_property  # noqa: E402
 
-ALL = [f"C{i:02d}" for i in range(1, 21) if i != 7]
+ALL = [f"C{i:02d}" for i in range(1, 21)]
 
 
 def run(args):
